@@ -15,3 +15,6 @@ def check(A):
         C.break_release_rule(A, cf, 'C08')
         C.send_packet_rule(A, cf, 'C08')
         C.send_request_rule(A, cf, 'C08')
+        C.reset_rules(A, cf, 'C08')
+        C.decode_guard_rule(A, cf, 'C08')
+        C.trigger_rules(A, cf, 'C08')
